@@ -255,6 +255,15 @@ func nilClass(v ssa.Value, env string, pi *phiInfo, depth int) int {
 	if depth > 5 {
 		return -1
 	}
+	// what the path has learnt (or was told) about this very value comes first
+	if pi.relevant[v] {
+		if b, ok := envGet(env, "N:"+v.Name()); ok {
+			if b {
+				return 1
+			}
+			return 0
+		}
+	}
 	switch x := v.(type) {
 	case *ssa.MakeInterface, *ssa.Alloc, *ssa.IndexAddr, *ssa.FieldAddr, *ssa.MakeSlice, *ssa.MakeMap, *ssa.MakeChan, *ssa.MakeClosure, *ssa.Function:
 		return 1
